@@ -116,6 +116,14 @@ void ob_c04j_arange_length(long n, long a)
     { auto v = view::arange(a, a + n, i64); OBLIGE("C04.view.arange.length_for_every_start_and_stop", (size_t)nm::at(nm::shape(v), 0) == (size_t)n, 1); }
     { auto v = view::arange(a + n, a, 1l, i64); OBLIGE("C04.view.arange.empty_range_has_length_zero", (size_t)nm::at(nm::shape(v), 0) == (n == 0 ? 0 : 0), 4); }
 }
+// element i of arange(start, stop, step) is start + i*step, for symbolic bounds and a symbolic index
+void ob_c04j_arange_element(long a, long n, size_t i)
+{
+    ASSUME(n >= 1 && n < (1l << 30)); ASSUME(a > -(1l << 30) && a < (1l << 30)); ASSUME(i < (size_t)n);
+    { auto v = view::arange(a, a + n, i64); OBLIGE("C04.view.arange.element_for_every_index", (long)v(i) == a + (long)i, 0); }
+    { auto v = view::arange(a, a + 2 * n, 2l, i64); OBLIGE("C04.view.arange.element_with_a_step_for_every_index", (long)v(i) == a + 2 * (long)i, 1); }
+    { auto v = view::arange(a + 3 * n, a, -3l, i64); OBLIGE("C04.view.arange.element_with_a_negative_step_for_every_index", (long)v(i) == a + 3 * n - 3 * (long)i, 2); }
+}
 void ob_c04j_arange_length_step(long n)
 {
     ASSUME(n >= 1 && n < (1l << 40));
